@@ -12,7 +12,10 @@ import (
 var (
 	ErrInvalidSignature   = errors.New("invalid signature")
 	ErrIncorrectKeyPeerId = errors.New("key-peer id doesn't match the signed key and peer")
+	ErrInvalidTimestamp   = errors.New("timestamp is out of range")
 )
+
+const maxTimestampMicro = int64(1) << 53
 
 type KeyValue struct {
 	KeyPeerId string
@@ -60,6 +63,11 @@ func KeyValueFromProto(proto *spacesyncproto.StoreKeyValue, verify bool) (kv Key
 		// the slot a value is filed under must be the one named inside the signed bytes
 		if kv.KeyPeerId != kv.Key+"-"+kv.PeerId {
 			return kv, ErrIncorrectKeyPeerId
+		}
+		// timestamps are stored as float64 numbers and advertised as unsigned big-endian heads: only
+		// non-negative values below 2^53 keep the same order in every representation
+		if kv.TimestampMicro < 0 || kv.TimestampMicro >= maxTimestampMicro {
+			return kv, ErrInvalidTimestamp
 		}
 		if verify, _ = identity.Verify(proto.Value, proto.IdentitySignature); !verify {
 			return kv, ErrInvalidSignature
